@@ -389,6 +389,8 @@ def run_shard(spec, rec):
                      features=[f"topology={case['topology']}", f"pattern={case['pattern']}", f"n={case['n']}"])
         if i < spec["nres"]:
             check_result(case, orders_for(case, rng, "quick")[-1], rec, cap, rng)
+        if i % 3 == 0:
+            check_reuse(case, case["compartments"], rec, cap)
     for i in range(spec["neq"]):
         c = check_equivalence(rng, rec, cap)
         if c:
@@ -396,6 +398,38 @@ def run_shard(spec, rec):
         c = check_split(rng, rec, cap)
         if c:
             rec.case(("split", c["ta"], c["tb"], c["na"], c["nb"]), c["na"] + c["nb"] >= 3, features=["split-dataset"])
+
+
+def check_reuse(case, order, rec, cap):
+    """The same filled dataset model evaluated twice with the parameters changed IN PLACE in between (what an
+    interactive user or a caller holding filled items does): the second matrix belongs to the new K."""
+    import copy
+
+    from glotaran.model.item import fill_item
+
+    model, params = build_general(case, order)
+    dm = fill_item(model.dataset["d1"], model, params)
+    mc = dm.megacomplex[0]
+    t = np.asarray(case["times"], dtype=float)
+    try:
+        mc.calculate_matrix(dm, np.array([0.0]), t)
+        case2 = copy.deepcopy(case)
+        f = 1.7
+        for name in ("km1", "km2"):
+            for ent in case2[name]:
+                ent[1] = ent[1] * f
+            for (a, b), v in case[name]:
+                params.get(f"{name}_{a}_{b}").value = v * f
+        labels, matrix = mc.calculate_matrix(dm, np.array([0.0]), t)
+    except Exception as e:  # noqa
+        if not K.spectrum_ok(reference(case, order)[0])[0]:
+            return
+        rec.violation(f"reuse:raises:{type(e).__name__}", dict(case, order=order), f"{type(e).__name__}: {str(e)[:200]}")
+        return
+    rec.count("reused_filled_models_checked")
+    case2["km1"] = [[tuple(k), v] for k, v in case2["km1"]]
+    case2["km2"] = [[tuple(k), v] for k, v in case2["km2"]]
+    judge_matrix(case2, order, list(labels), np.asarray(matrix), rec, dict(case2, order=order, scenario="filled dataset model re-evaluated after in-place parameter change (x1.7)"), cap)
 
 
 def check_split(rng, rec, cap):
